@@ -222,7 +222,13 @@ func (o *c09Obj) Disasm(string, uint64, uint64, bool) ([]plugin.Inst, error) {
 	return nil, fmt.Errorf("no disassembler here")
 }
 
-type c09Writer struct{ n int }
+// c09Writer is the plugin.Writer: everything a report writes with `>file` / -output is kept in memory,
+// filed under the number of the report that was running (cur) so that it can be parsed back.
+type c09Writer struct {
+	n    int
+	cur  int
+	bufs map[int]*c09WC
+}
 type c09WC struct{ bytes.Buffer }
 
 func (*c09WC) Close() error { return nil }
@@ -231,8 +237,38 @@ func (w *c09Writer) Open(name string) (io.WriteCloser, error) {
 	if name == "fail" {
 		return nil, fmt.Errorf("cannot open %s", name)
 	}
-	return &c09WC{}, nil
+	b := &c09WC{}
+	if w.bufs == nil {
+		w.bufs = map[int]*c09WC{}
+	}
+	w.bufs[w.cur] = b
+	return b, nil
 }
+
+// c09LegendBlock parses the "Active filters" block back out of a printed text/top/tree/peek report:
+// the line "Active filters:" and the indented lines after it, up to "Showing nodes accounting for".
+// ok=false when the output has no legend header at all (not such a report).
+func c09LegendBlock(out string) ([]string, bool) {
+	lines := strings.Split(out, "\n")
+	end := -1
+	for i, l := range lines {
+		if strings.HasPrefix(l, "Showing nodes accounting for") {
+			end = i
+			break
+		}
+	}
+	if end < 0 {
+		return nil, false
+	}
+	for i := 0; i < end; i++ {
+		if lines[i] == "Active filters:" {
+			return lines[i:end], true
+		}
+	}
+	return nil, true
+}
+
+var c09LegendCmds = map[string]bool{"text": true, "top": true, "tree": true, "peek": true}
 
 // c09Guarded runs f under recover and a deadline.
 func c09Guarded(d time.Duration, f func() string) Term {
@@ -744,10 +780,14 @@ func c09Session(c *Ctx, gen string, p *profile.Profile, lines []string, real boo
 	all := append(append([]string{}, lines...), "top 3")
 	ui := &c09UI{lines: all}
 	obj := &c09Obj{}
-	o := &plugin.Options{UI: ui, Obj: obj, Sym: c09Sym{}, Writer: &c09Writer{}, Flagset: newC09Flags(nil), Fetch: c09Fetch{}}
+	wr := &c09Writer{}
+	o := &plugin.Options{UI: ui, Obj: obj, Sym: c09Sym{}, Writer: wr, Flagset: newC09Flags(nil), Fetch: c09Fetch{}}
 	var results []Term
+	var reportCmds []string
 	hook := func(cmd []string, cfg []driver.VerifC09Field, next func() error) error {
 		ui.events = append(ui.events, L(S("report"), Ss(cmd), c09Dump(cfg)))
+		wr.cur = len(reportCmds)
+		reportCmds = append(reportCmds, cmd[0])
 		if !real {
 			return nil
 		}
@@ -791,7 +831,16 @@ func c09Session(c *Ctx, gen string, p *profile.Profile, lines []string, real boo
 	if _, isS := out.(tS); isS {
 		final = c09Current()
 	}
-	obs := L(out, L(evs...), final, L(results...))
+	// parse the printed reports back: the "Active filters" legend of every captured text-like report
+	var legends []Term
+	for k, cmd := range reportCmds {
+		if b, ok := wr.bufs[k]; ok && c09LegendCmds[cmd] {
+			if blk, ok := c09LegendBlock(b.String()); ok {
+				legends = append(legends, L(ZI(k), Ss(blk)))
+			}
+		}
+	}
+	obs := L(out, L(evs...), final, L(results...), L(legends...))
 	tags := []string{"op:session-" + mode}
 	if skipCmp {
 		tags = append(tags, "non-ascii-line")
@@ -878,7 +927,8 @@ func c09CLISym(c *Ctx, gen string, p *profile.Profile, args []string, lines []st
 	}
 	ui := &c09UI{lines: append(append([]string{}, lines...), "top 3")}
 	fl := newC09Flags(args)
-	o := &plugin.Options{UI: ui, Obj: &c09Obj{}, Sym: c09Sym{}, Writer: &c09Writer{}, Flagset: fl, Fetch: c09Fetch{c09Bytes(p)},
+	wr := &c09Writer{}
+	o := &plugin.Options{UI: ui, Obj: &c09Obj{}, Sym: c09Sym{}, Writer: wr, Flagset: fl, Fetch: c09Fetch{c09Bytes(p)},
 		HTTPServer: func(*plugin.HTTPServerArgs) error { return nil }, HTTPTransport: c09NoNet{}}
 	if realSym {
 		o.Sym = nil
@@ -892,7 +942,26 @@ func c09CLISym(c *Ctx, gen string, p *profile.Profile, args []string, lines []st
 		}
 		return c09ErrClass(err)
 	})
-	c09Emit(c, gen, in, L(out), len(args) > 1, "op:cli")
+	obs := L(out)
+	// parse the printed report back: the "Active filters" legend of -text/-top/-tree/-peek written with -output
+	if len(args) > 0 && len(wr.bufs) == 1 {
+		cmd := strings.TrimLeft(args[0], "-")
+		if k := strings.Index(cmd, "="); k >= 0 {
+			cmd = cmd[:k]
+		}
+		clean := true
+		for _, a := range args {
+			if strings.Contains(a, "\n") {
+				clean = false
+			}
+		}
+		if b, ok := wr.bufs[0]; ok && clean && c09LegendCmds[cmd] {
+			if blk, ok := c09LegendBlock(b.String()); ok {
+				obs = L(out, Ss(blk))
+			}
+		}
+	}
+	c09Emit(c, gen, in, obs, len(args) > 1, "op:cli")
 	c09Cleanup()
 }
 
@@ -965,7 +1034,8 @@ func runC09(c *Ctx) {
 	//  * a call that never returns (leaked lock, endless loop) is the observable "hang"; the
 	//    goroutine left behind poisons the process, so the child stops after reporting it.
 	c09RunChildren(c, []string{"core", "config", "session-hook", "session-real", "web", "cli", "symbolize",
-		"matrix-session-0", "matrix-session-1", "matrix-session-2", "matrix-cli", "matrix-web"})
+		"matrix-session-0", "matrix-session-1", "matrix-session-2", "matrix-cli", "matrix-web",
+		"e2e-session", "e2e-cli", "e2e-web", "e2e-lines"})
 }
 
 // c09Core runs the model-compared streams of the decision cores.
@@ -984,7 +1054,7 @@ func c09Core(c *Ctx, stream string) {
 	piece := func() string {
 		return PickS(r, []string{"", "", "+", "-", "x", " "}) + PickS(r, digits) + PickS(r, unitsuf)
 	}
-	for k := 0; k < c.Budget(500, 10000); k++ {
+	for k := 0; k < c.Budget(300, 10000); k++ {
 		var f string
 		switch r.Intn(6) {
 		case 0:
@@ -1043,7 +1113,7 @@ func c09Core(c *Ctx, stream string) {
 	for _, n := range allNames {
 		for _, pool := range pools {
 			for _, v := range pool {
-				if c.Tier == "thorough" || r.P(1, 6) {
+				if c.Tier == "thorough" || r.P(1, 8) {
 					c09Set(c, "set-matrix", n, v)
 				}
 			}
@@ -1051,7 +1121,7 @@ func c09Core(c *Ctx, stream string) {
 	}
 	// --- applyURL
 	genQuery := c09QueryGen(r)
-	for k := 0; k < c.Budget(600, 10000); k++ {
+	for k := 0; k < c.Budget(400, 10000); k++ {
 		c09URL(c, "url-random", genQuery())
 	}
 	for _, q := range []string{"", "%", "a=%zz", "n=5&n=x", "n=x&n=5", "tf=99999999999999999999", "ti=1:99999999999999999999", "=", "&&", "n", "n=", "trim=maybe", "nf=nan", "sort=zz", "g=lines", "g=zz"} {
@@ -1069,7 +1139,7 @@ func c09Core(c *Ctx, stream string) {
 		}
 		c09Session(c, "session-pool", p, []string{l}, false)
 	}
-	for k := 0; k < c.Budget(600, 20000); k++ {
+	for k := 0; k < c.Budget(400, 20000); k++ {
 		p := c09Profile(r, false)
 		var lines []string
 		for j := 1 + r.Intn(4); j > 0; j-- {
